@@ -33,7 +33,7 @@ EDGE_OK = [1e-300, 5e-324, 1 - 2 ** -53, 0.9999999999999999, 0.5, 1e-9]
 
 
 def n_fixed(tier):
-    return 3
+    return 4
 
 
 def fixed_specs(tier, ctx):
@@ -62,9 +62,19 @@ def fixed_specs(tier, ctx):
     soak = [{"op": "board_range", "params": dict(base, seed=50000 + i, width=40, length=40, lt=0.3,
                                                  max_reward=(1, 1, 1, 2, 3)[i % 5], force_down=bool(i % 2))}
             for i in range(n_boards)]
+    # long quiet stretches: probe boards, one 1x1 board drawn about T times in the same process, the probes again
+    quiet = []
+    probes = [dict(base, seed=70 + i, width=w_, length=l_, force_down=bool(i % 2), lt=(0.3, 0.304, 0.71)[i % 3])
+              for i, (w_, l_) in enumerate([(1, 1), (2, 3), (4, 4), (7, 5), (9, 9), (12, 16), (20, 20), (33, 30)])]
+    for T in ([2 ** 8, 2 ** 12, 2 ** 16] if tier == "quick" else [2 ** k for k in range(5, 19)] + [1000, 10000, 100000]):
+        quiet.append({"op": "restart", "entropy": T})
+        quiet += [{"op": "board", "params": q} for q in probes]
+        quiet.append({"op": "board_quiet", "params": dict(base, seed=9, width=1, length=1), "times": max(1, T - len(probes) // 2 - 1)})
+        quiet += [{"op": "board", "params": q} for q in probes]
     return [{"cfg": {"klass": "boundaries"}, "ops": opl},
             {"cfg": {"klass": "boundaries-python-OO", "optimize": 2}, "ops": opl},
-            {"cfg": {"klass": "range-soak"}, "ops": soak}]
+            {"cfg": {"klass": "range-soak"}, "ops": soak},
+            {"cfg": {"klass": "quiet-stretches"}, "ops": quiet}]
 
 
 def _bparams(rng):
@@ -245,7 +255,29 @@ def execute(spec, w, ctx):
             continue
         p = op["params"]
         key = canon(p)
-        if kind == "board_range":
+        if kind == "board_quiet":
+            times = int(op["times"])
+
+            def thunk():
+                gen_ = proc.mod("roberta_generator").gen_rnd_board
+                first = None
+                for k_ in range(times):
+                    cur = gen_(p["seed"], p["length"], p["width"], p["lt"], p["max_reward"], p["force_down"])
+                    if first is None:
+                        first = cur
+                    elif cur != first:
+                        return (k_, first, cur)
+                return (None, first, None)
+            out = w.run_op(thunk, {"step_cap": 10 ** 9})
+            w.fired("quiet-stretch-boards", times)
+            events.append([i_op, "board_quiet", times, out["status"]])
+            if out["status"] != "ok":
+                v = viol("I15.1", i_op, "%d identical gen_rnd_board calls in a row did not finish: %s" % (times, genops.show(out)), "board-crashed")
+            elif out["value"][0] is not None:
+                v = viol("I15.2", i_op, "gen_rnd_board(%s): call #%d in a row returned %s, the first returned %s" % (
+                    _pp(p), out["value"][0] + 1, short(out["value"][2], 200), short(out["value"][1], 200)), "board-not-reproducible")
+            disturbed = True
+        elif kind == "board_range":
             out = ops.board(w, p, {})
             if out["status"] != "ok":
                 v = viol("I15.1", i_op, "gen_rnd_board(%s) did not return: %s" % (_pp(p), genops.show(out)), "board-crashed")
